@@ -167,8 +167,6 @@ def obligations(tier):
             for cfg in ("nodata", "stored", "yml", "json", "pkl"):
                 if cfg in ("json", "pkl") and t not in ("chain", "cse"):
                     continue
-                if t == "unbounded" and cfg == "stored":
-                    continue
                 for tag, seq, mid, sk in skeletons(t, 1, tier):
                     add(t, cfg, 1, tag, seq, mid, sk)
                 if t == "unbounded":
